@@ -152,6 +152,10 @@ func (ex *Exec) visitInstr(fr *Frame, instr ssa.Instruction) continuation {
 		fr.env[instr] = fr.get(instr.Iter).(iter).next(ex)
 
 	case *ssa.FieldAddr:
+		if o, isO := fr.get(instr.X).(Opaque); isO {
+			fr.env[instr] = o
+			break
+		}
 		p, ok := fr.get(instr.X).(*Value)
 		if !ok {
 			ex.unsupported("FieldAddr on %T", fr.get(instr.X))
@@ -161,11 +165,19 @@ func (ex *Exec) visitInstr(fr *Frame, instr ssa.Instruction) continuation {
 		}
 		s, ok := (*p).(Struct)
 		if !ok {
+			if o, isO := (*p).(Opaque); isO {
+				fr.env[instr] = o
+				break
+			}
 			ex.unsupported("FieldAddr: pointee is %T", *p)
 		}
 		fr.env[instr] = &s[instr.Field]
 
 	case *ssa.Field:
+		if o, isO := fr.get(instr.X).(Opaque); isO {
+			fr.env[instr] = o
+			break
+		}
 		s, ok := fr.get(instr.X).(Struct)
 		if !ok {
 			ex.unsupported("Field on %T", fr.get(instr.X))
